@@ -419,7 +419,7 @@ theorem bindJ_eq_bind (P : Params) (cfg : Cfg) (tag : Tag) (ty : Ty) (init : Val
 /-- … and the shortcut oracle is the plain oracle -/
 theorem specOKJ_eq_specOK (P : Params) (cfg : Cfg) (tag : Tag) (fs : List Fld) (init : Val) (s : Src) (o : Spec.Obs)
     (h : ∀ x, (P x).nj = none) : Spec.specOKJ P cfg tag fs init s o = Spec.specOK P cfg tag fs init s o := by
-  have hall : (Spec.shortcuts P tag fs s).all Option.isNone = true := by
+  have hall : (Spec.shortcuts P cfg tag fs s).all Option.isNone = true := by
     simp only [Spec.shortcuts, List.all_map, List.all_eq_true]
     intro f _
     simp only [Function.comp, Spec.shortcutAt, h]
@@ -867,6 +867,47 @@ theorem bindStepsAll_errors_meet_spec (P : Params) (hP : FloatSane P) (cfg : Cfg
               · exact Or.inl h
               · exact Or.inr ⟨e, List.mem_append.2 (Or.inr he), hx⟩
 
+/-! ## the depth limit and the nested-struct JSON shortcut (K04k) -/
+
+/-- **The depth test comes before the shortcut**: a nested struct field beyond the depth limit is the depth error
+    naming the field, whatever its own key holds - also a JSON value the decoder would accept (after the fix for K04k;
+    `model_depth_check` is the same statement for the plain step). -/
+theorem bindJ_depth_check_first (P : Params) (cfg : Cfg) (nest : Nest) (g : Getter) (depth : Nat) (f : FieldInfo) (cur : Val)
+    (hm : isMapTy f.ty = false) (hs : isStructTy f.ty = true) (hd : cfg.maxDepth < depth + 1) :
+    fieldActionJ P cfg nest g depth f cur = .inr (.err (.bind f.name .depth)) := by
+  unfold fieldActionJ
+  simp only [hm, hs, hd, decide_true, Bool.not_true, Bool.and_false, Bool.false_eq_true, if_false]
+  simp [fieldAction, hm, hs, hd]
+
+/-- … and in the collecting bind -/
+theorem bindAllJ_depth_check_first (P : Params) (cfg : Cfg) (nest : NestAll) (g : Getter) (depth : Nat) (f : FieldInfo) (cur : Val)
+    (hm : isMapTy f.ty = false) (hs : isStructTy f.ty = true) (hd : cfg.maxDepth < depth + 1) :
+    fieldActionAllJ P cfg nest g depth f cur = .skip [.bind f.name .depth] := by
+  unfold fieldActionAllJ
+  simp only [hm, hs, hd, decide_true, Bool.not_true, Bool.and_false, Bool.false_eq_true, if_false]
+  simp [fieldActionAll, hm, hs, hd]
+
+def k04kP : Params := fun s => if s == B "{\"X\":1}" then { nj := some (.struct [.int 1]) } else {}
+def k04kCfg : Cfg := { Cfg.default with maxDepth := 0 }
+def k04kField : FieldInfo :=
+  { index := [0], name := B "N", tagName := B "n", aliases := [],
+    ty := .struct [({ name := B "X", exported := true, anon := false, tags := [B "x"], dflt := [] }, .prim (.int 0))],
+    dflt := [], typedDefault := none }
+def k04kGetter : Getter := { src := { kind := .query, kvs := [(B "n", [B "{\"X\":1}"])] } }
+def isBoundOne : Val ⊕ Stop → Bool
+  | .inl (.struct [.int 1]) => true
+  | _ => false
+def isDepthErr : Val ⊕ Stop → Bool
+  | .inr (.err (.bind _ .depth)) => true
+  | _ => false
+
+/-- as shipped (K04k): with `WithMaxDepth(0)` a nested struct whose own key held a JSON value was bound at depth 1;
+    after the fix it is the depth error -/
+theorem shortcut_depth_asis_witness :
+    isBoundOne (fieldActionJAsIs k04kP k04kCfg (fun _ _ _ _ => .err .depth) k04kGetter 0 k04kField (.struct [.int 0])) = true ∧
+    isDepthErr (fieldActionJ k04kP k04kCfg (fun _ _ _ _ => .err .depth) k04kGetter 0 k04kField (.struct [.int 0])) = true := by
+  decide
+
 /-! ## the nested-struct JSON shortcut in a collecting bind -/
 
 theorem bindAllJ_eq_bindAll (P : Params) (cfg : Cfg) (tag : Tag) (ty : Ty) (init : Val) (src : Src)
@@ -878,7 +919,7 @@ theorem bindAllJ_eq_bindAll (P : Params) (cfg : Cfg) (tag : Tag) (ty : Ty) (init
 
 theorem specAllJ_eq_specAll (P : Params) (cfg : Cfg) (tag : Tag) (fs : List Fld) (init : Val) (s : Src) (o : Spec.ObsAll)
     (h : ∀ x, (P x).nj = none) : Spec.specAllJ P cfg tag fs init s o = Spec.specAll P cfg tag fs init s o := by
-  have hall : (Spec.shortcuts P tag fs s).all Option.isNone = true := by
+  have hall : (Spec.shortcuts P cfg tag fs s).all Option.isNone = true := by
     simp only [Spec.shortcuts, List.all_map, List.all_eq_true]
     intro f _
     simp only [Function.comp, Spec.shortcutAt, h]
